@@ -24,7 +24,7 @@ use std::path::{Path, PathBuf};
 use std::process::{Command, Stdio};
 
 pub const THREADS: [u32; 4] = [1, 2, 5, 16];
-const KINDS_OK: [char; 2] = ['g', 'j'];
+const KINDS_OK: [char; 8] = ['g', 'g', 'g', 'g', 'j', 'j', 'j', 'J'];
 const KINDS_BAD: [char; 10] = ['u', 'a', 'c', 'h', 'r', 'm', 't', 'd', 'b', 'c'];
 
 #[derive(Clone, Debug, PartialEq)]
@@ -165,6 +165,7 @@ fn words_bytes(w: &[u32]) -> Vec<u8> {
 
 /// the banks of an event of the given kind: (name, data)
 ///   g  valid TRG bank only                         j  TRBA junk, valid TRG, MCVX junk (both ignored by the library)
+///   J  70 000-byte TRBA bank + valid TRG (spans LZ4 blocks)
 ///   u  valid TRG + bank `XYZW` (unknown name)      a  bank `AAAA` (bad trigger name) + valid TRG
 ///   c  TRG bank of 76 bytes                        h  TRG bank with a wrong header mark
 ///   r  TRG bank with a reserved word set           m  no bank at all
@@ -174,7 +175,7 @@ fn words_bytes(w: &[u32]) -> Vec<u8> {
 /// vertices needs every bank name known and exactly one valid TRG bank; scalers looks at `ATAT` banks only
 pub fn decodable(kind: char) -> (bool, bool) {
     match kind {
-        'g' | 'j' => (true, true),
+        'g' | 'j' | 'J' => (true, true),
         'u' | 'a' => (false, true),
         _ => (false, false),
     }
@@ -186,6 +187,8 @@ pub fn banks(e: &Ev) -> Vec<(&'static str, Vec<u8>)> {
     match e.kind {
         'g' => vec![("ATAT", good)],
         'j' => vec![("TRBA", junk(8)), ("ATAT", good), ("MCVX", junk(12))],
+        // a bank larger than an LZ4 block (64 KiB) and than the decoder's buffer
+        'J' => vec![("TRBA", junk(70_000)), ("ATAT", good)],
         'u' => vec![("ATAT", good), ("XYZW", junk(4))],
         'a' => vec![("AAAA", junk(4)), ("ATAT", good)],
         'c' => vec![("ATAT", good[..76].to_vec())],
